@@ -32,7 +32,9 @@ RULE = ("One evaluation = one seeded execution of two real Managers (the "
         "Leader's application pauses its subchannel, the connection is "
         "lost, the application resumes before the loss / in the gap / after "
         "the replacement is up; many_reconnects: 2..6 losses (cut or silence) "
-        "in one session, then a responsive or a silent final connection. "
+        "in one session, then a responsive or a silent final connection; "
+        "silent with a long path: every pong takes 0.2..0.98 of the interval "
+        "(constant propagation delay), silence after some answered pings. "
         "Non-trivial: at least one ping/pong round trip happened and (a "
         "stall window was applied or a drop/stop occurred). Distinct: "
         "event-log digests among non-trivial runs.")
@@ -64,7 +66,8 @@ def configs(tier):
                                     "reconnect_silent", "one_way",
                                     "bulk_reconnect", "pause_reconnect",
                                     "many_reconnects",
-                                    "loss_at_selection", "stop_bulk")]
+                                    "loss_at_selection", "stop_bulk")] + \
+        [{"regime": "silent", "latent": True}]
 
 
 def _loss_at_selection(seed, tape, opts, interval):
@@ -195,6 +198,14 @@ def run_one(seed, tape, opts):
     elif regime in ("silent", "stop"):
         silent_at = interval * tape.pick((0.0, 0.3, 0.99, 1.0, 1.01, 1.5, 2.2,
                                           3.7, 5.0), "silent_at")
+        if opts.get("latent"):
+            # a long path: every pong takes a drawn fraction of the interval
+            # (the same on every ping), then the peer goes silent
+            rtt = interval * tape.pick((0.2, 0.3, 0.5, 0.7, 0.9, 0.98), "rtt")
+            eL.link.latency = rtt / 2
+            silent_at = interval * tape.pick((1.99, 2.5, 3.3, 4.6, 5.2),
+                                             "silent_at2")
+            sim.note("probe.constant_path_latency")
     elif regime == "slow":
         silent_at = interval * tape.pick((0.2, 1.0, 1.7, 3.1), "slow_at")
         stall_windows.append((silent_at,
